@@ -106,6 +106,17 @@ def elop_strings():
     return res
 
 
+def is_known_braces(caller_text, message):
+    """predicate of the recorded finding F-ellipsis-braces, and nothing wider: the caller wrote a bracket group of >= 2 plain members directly under an
+    ellipsis ('[a b]...'), and the text einx complains about contains exactly that group printed with braces ('{a b}...')"""
+    import re
+    for m in re.finditer(r"\[([^\[\]\(\)\{\}]*)\]\s*\.\.\.", caller_text):
+        members = m.group(1).split()
+        if len(members) >= 2 and re.search(r"\{\s*" + r"\s+".join(re.escape(x) for x in members) + r"\s*\}\s*\.\.\.", message):
+            return True
+    return False
+
+
 def add(chk, tier, seed):
     kp = 5 if tier == "quick" else 6  # totality / quoting
     kr = 4 if tier == "quick" else 5  # round trip / re-spacing
@@ -125,7 +136,7 @@ def add(chk, tier, seed):
     for ob, s, detail in fails:
         if "|" in s and False:
             continue
-        known = ob == "C12.B.roundtrip" and "{" in detail
+        known = ob == "C12.B.roundtrip" and is_known_braces(s, detail)
         if known:
             chk.known_finding("F-ellipsis-braces", "a bracket group of >= 2 axes under an ellipsis prints with braces, which the parser rejects (e.g. '[a b]...')")
             continue
@@ -137,7 +148,7 @@ def add(chk, tier, seed):
                     total, nontriv, failures=fails, exhaustive=True, samples=["a b -> (a + b)", "[a]..."])
     el = elop_strings()
     for op, d, shape, msg in el:
-        if "{" in msg and "]..." in d:
+        if is_known_braces(d, msg):
             chk.known_finding("F-ellipsis-braces", "a bracket group of >= 2 axes under an ellipsis prints with braces, which the parser rejects (e.g. '[a b]...')")
             continue
         chk.violation("C12.B.elop_text", f"einx.{op}({d!r}, shape={shape}) fails with: {msg}", replay={"kind": "case", "case": {"op": op, "description": d, "shape": list(shape)}}, found_input=True)
